@@ -25,6 +25,8 @@ pub enum CellOp {
     LocalBatch(f64, f64),
     /// local counter: inc_by(a); clone it; flush both — the clone must start empty
     LocalCloneFlush(f64),
+    /// vector flavours: remove the unrelated child "other" (created in setup); no effect on the cell itself
+    RemoveOther,
 }
 
 #[derive(Clone, Copy, Debug, PartialEq, Eq, serde::Serialize, serde::Deserialize)]
@@ -71,17 +73,51 @@ impl Cell {
         match f {
             Flavour::Counter => Cell::C(Counter::with_opts(o()).unwrap()),
             Flavour::IntCounter => Cell::IC(IntCounter::with_opts(o()).unwrap()),
-            Flavour::CounterVecChild => Cell::CV(CounterVec::new(o(), &["l"]).unwrap()),
-            Flavour::IntCounterVecChild => Cell::ICV(IntCounterVec::new(o(), &["l"]).unwrap()),
+            Flavour::CounterVecChild => {
+                let v = CounterVec::new(o(), &["l"]).unwrap();
+                v.with_label_values(&["other"]);
+                Cell::CV(v)
+            }
+            Flavour::IntCounterVecChild => {
+                let v = IntCounterVec::new(o(), &["l"]).unwrap();
+                v.with_label_values(&["other"]);
+                Cell::ICV(v)
+            }
             Flavour::Gauge => Cell::G(Gauge::with_opts(o()).unwrap()),
             Flavour::IntGauge => Cell::IG(IntGauge::with_opts(o()).unwrap()),
-            Flavour::GaugeVecChild => Cell::GV(GaugeVec::new(o(), &["l"]).unwrap()),
-            Flavour::IntGaugeVecChild => Cell::IGV(IntGaugeVec::new(o(), &["l"]).unwrap()),
+            Flavour::GaugeVecChild => {
+                let v = GaugeVec::new(o(), &["l"]).unwrap();
+                v.with_label_values(&["other"]);
+                Cell::GV(v)
+            }
+            Flavour::IntGaugeVecChild => {
+                let v = IntGaugeVec::new(o(), &["l"]).unwrap();
+                v.with_label_values(&["other"]);
+                Cell::IGV(v)
+            }
         }
     }
 
     /// Perform `op` (each vector flavour fetches its child with with_label_values first).
     pub fn apply(&self, op: CellOp) -> Val {
+        if op == CellOp::RemoveOther {
+            match self {
+                Cell::CV(v) => {
+                    let _ = v.remove_label_values(&["other"]);
+                }
+                Cell::ICV(v) => {
+                    let _ = v.remove_label_values(&["other"]);
+                }
+                Cell::GV(v) => {
+                    let _ = v.remove_label_values(&["other"]);
+                }
+                Cell::IGV(v) => {
+                    let _ = v.remove_label_values(&["other"]);
+                }
+                _ => {}
+            }
+            return Val::Unit;
+        }
         macro_rules! counter_ops {
             ($c:expr, $conv:expr, $back:expr) => {{
                 let c = $c;
@@ -181,10 +217,15 @@ impl Cell {
             Cell::GV(c) => (c.collect(), true),
             Cell::IGV(c) => (c.collect(), true),
         };
-        if mfs.len() != 1 || mfs[0].get_metric().len() != 1 {
+        if mfs.len() != 1 {
             return None;
         }
-        Some(collected_value(mfs, g))
+        // vector flavours may still hold the unrelated child "other"
+        let mine: Vec<&prometheus::proto::Metric> = mfs[0].get_metric().iter().filter(|m| m.get_label().iter().all(|l| l.value() != "other")).collect();
+        if mine.len() != 1 {
+            return None;
+        }
+        Some(if g { mine[0].get_gauge().value() } else { mine[0].get_counter().value() })
     }
 }
 
@@ -201,6 +242,7 @@ pub fn op_name(op: CellOp) -> (&'static str, Val) {
         CellOp::LocalFlush(d) => ("add", Val::F(d)),
         CellOp::LocalBatch(a, b) => ("add", Val::F(a + b)),
         CellOp::LocalCloneFlush(a) => ("add", Val::F(a)),
+        CellOp::RemoveOther => ("add", Val::F(0.0)),
     }
 }
 
